@@ -198,6 +198,11 @@ def hand_items(ids):
                       Variant("AB", [Field("y", I("u8"))]), Variant("Ab")],
       [[("tag", "t"), ("rename_all", "lowercase")]])
     E("HUnitCollide", [Variant("First"), Variant("Second", attrs=[[("rename", "First")]]), Variant("third"), Variant("Third")], [[("rename_all", "lowercase")]])
+    # the empty string as an effective name (variant, tag value, key)
+    E("HEmptyName", [Variant("Meter"), Variant("Dimensionless", attrs=[[("rename", "")]]), Variant("Mile")], [[("rename_all", "lowercase")]])
+    E("HEmptyNameTagged", [Variant("Nothing", attrs=[[("rename", "")]]), Variant("Some1", [Field("x", I("u8"), [[("rename", "")]]), Field("y", T.Bool, [[("default", None)]])])],
+      [[("tag", "u")], [("deny", None)]])
+    S("HEmptyKey", [Field("a", I("u8"), [[("rename", "")]]), Field("b", T.String)], [[("deny", None)]])
     # raw identifiers: the key is the identifier's text as `Ident::to_string` gives it
     S("HRaw", [Field("r#type", I("u8")), Field("r#match", T.Bool, [[("default", None)]]), Field("plain_one", T.String), Field("r#fn", I("u8"), [[("rename", "fn")]])],
       [[("deny", None)]])
@@ -668,7 +673,7 @@ def gen_key(k, rng, valid=True):
     if k == "String":
         return gen_str(rng)
     if k == "bool":
-        return rng.choice(["true", "false"]) if valid else rng.choice(["True", "1", "", "yes"])
+        return rng.choice(["true", "false"]) if valid else rng.choice(["True", "1", "", "yes", rng.choice(LONG_STRINGS)])
     lo, hi = T.int_range(k)
     if valid:
         v = rng.choice([1, 2, 3, 7, 42, min(hi, 255), max(lo, -5)])
@@ -676,7 +681,8 @@ def gen_key(k, rng, valid=True):
             v = 1
         s = str(v)
         return rng.choice([s, s, s, "+" + s if v >= 0 else s, "0" + s if v >= 0 else s])
-    return rng.choice(["", "a", "-", "+", "1.0", " 1", str(hi + 1), str(lo - 1), "0" if k.startswith("NonZero") else "x", "-0" if lo == 0 else "--1", "1_0"])
+    return rng.choice(["", "a", "-", "+", "1.0", " 1", str(hi + 1), str(lo - 1), "0" if k.startswith("NonZero") else "x", "-0" if lo == 0 else "--1", "1_0",
+                       rng.choice(LONG_STRINGS), "9" * 70])
 
 
 def gen_valid(t, rng, depth=0):
@@ -744,7 +750,9 @@ def gen_item_valid(it, rng, depth):
     return None
 
 
-WRONG = [None, True, "ctl\u0008\u000c\u001b\u007f\u00ad\u200b", {"i": "1"}, {"i": "1000"}, {"n": "-3"}, {"f": "3ff8000000000000"}, "str", [], [{"i": "1"}], {"m": []}, {"m": [["a", None]]},
+LONG_STRINGS = ["\u5b57" * 22, "\u043a\u043b\u044e\u0447\u2192" * 6, "a\u00e9" * 40, "x" * 63 + "\u20ac" + "tail", "x" * 62 + "\U0001f600" + "y" * 70,
+                "\u00e9" * 31 + "ab\u20ac" * 5, "0123456789" * 13, "\u20ac" * 43 + "a"]
+WRONG = [None, True, LONG_STRINGS[0], LONG_STRINGS[1], "ctl\u0008\u000c\u001b\u007f\u00ad\u200b", {"i": "1"}, {"i": "1000"}, {"n": "-3"}, {"f": "3ff8000000000000"}, "str", [], [{"i": "1"}], {"m": []}, {"m": [["a", None]]},
          {"i": "18446744073709551615"}, {"n": "-9223372036854775808"}, "!bad", {"i": "3"}, [{"i": "1"}, {"i": "2"}, {"i": "3"}],
          {"f": "7ff8000000000000"}, [{"f": "7ff0000000000000"}, {"i": "1"}, {"f": "fff0000000000000"}], {"m": [["a", {"f": "7ff8000000000000"}], ["b", [{"f": "7ff0000000000000"}]]]}]
 
@@ -821,7 +829,8 @@ def mutate_once(p, rng, extra_keys=()):
     if op == "range":
         return set_at(p, path, wi(rng.choice([255, 256, 65536, 2**31, 2**32, 2**63, 2**64 - 1, -1, -129, -32769, -2**31 - 1, -2**63, 0, 127, 128, 1000, 3, 7])))
     if op == "str":
-        return set_at(p, path, rng.choice(["", "ab", "!x", "é", "a,b,,c", ",1", "1,,2", ",", "1,x", "256", "Alpha", "alpha", "abé", "ab\U0001f980", "\u0008\u000c\u007f", near_miss(cur, rng)]))
+        return set_at(p, path, rng.choice(["", "ab", "!x", "é", "a,b,,c", ",1", "1,,2", ",", "1,x", "256", "Alpha", "alpha", "abé", "ab\U0001f980", "\u0008\u000c\u007f", near_miss(cur, rng),
+                                           rng.choice(LONG_STRINGS), rng.choice(LONG_STRINGS)]))
     if op == "ws":
         # blank is not empty: whitespace-only segments of comma-separated lists, padded elements, padded scalars
         w = rng.choice([" ", "  ", "\t", "\n", "\u00a0", "\u3000", " \t "])
